@@ -5,6 +5,7 @@
 #![allow(dead_code)]
 
 mod chan;
+mod crashlog;
 mod ctx;
 mod engine_t;
 mod framework;
@@ -21,6 +22,7 @@ mod rng;
 mod scn_uni;
 
 use framework::{check_scenarios, CheckCfg, Part, PartRunner, ReplayFile, Tier};
+use std::os::unix::process::ExitStatusExt;
 use std::sync::Arc;
 
 const RULE_T: &str = "one evaluation = one simulated run (workload, sizes, fault rates and schedule all drawn from run_seed = f(VERIF_SEED, property, run index)); a run is non-trivial if the scheduler preempted a thread inside an operation at least once; distinct = distinct context-switch signatures (hash of the sequence of (from-thread, to-thread, code site) over all context switches of the run), counted with a hash set merged across workers";
@@ -132,6 +134,122 @@ fn exit(code: i32) -> ! {
     std::process::exit(code)
 }
 
+fn signal_name(sig: i32) -> &'static str {
+    match sig {
+        libc::SIGSEGV => "SIGSEGV",
+        libc::SIGABRT => "SIGABRT",
+        libc::SIGBUS => "SIGBUS",
+        libc::SIGILL => "SIGILL",
+        libc::SIGFPE => "SIGFPE",
+        libc::SIGKILL => "SIGKILL",
+        _ => "signal",
+    }
+}
+
+/// Runs the check in a child process and survives its death: a run that kills the process (memory corruption in the code
+/// under test) is attributed through the crash log, confirmed by re-running it alone, reported as a violation, and skipped
+/// when the check is started again to finish the batch.
+fn supervise(property: &str, tier: Tier, pc: &PropertyCheck, cfg: &CheckCfg) -> i32 {
+    let root = framework::verif_root();
+    let replay_dir = root.join("replays");
+    std::fs::create_dir_all(&replay_dir).ok();
+    let log_path = replay_dir.join(format!(".crashlog-{}", std::process::id()));
+    let exe = std::env::current_exe().expect("no current exe");
+    let known = framework::load_known_findings();
+    let mut skip: Vec<(usize, u64)> = vec![];
+    let mut crashes: Vec<(usize, u64, i32)> = vec![];
+    let mut child_code = 2;
+    for _attempt in 0..4 {
+        if crashlog::create(&log_path).is_err() {
+            eprintln!("HARNESS-ERROR: cannot create {}", log_path.display());
+            return 2;
+        }
+        let skip_arg = skip.iter().map(|(p, i)| format!("{}:{}", p, i)).collect::<Vec<_>>().join(",");
+        let status = std::process::Command::new(&exe).args(["check", property, tier.name()]).env("VERIF_WORKER_CHILD", "1").env("VERIF_CRASHLOG", &log_path).env("VERIF_SKIP_RUNS", &skip_arg).status();
+        let status = match status {
+            Ok(s) => s,
+            Err(e) => {
+                eprintln!("HARNESS-ERROR: cannot start the worker process: {}", e);
+                return 2;
+            }
+        };
+        if let Some(code) = status.code() {
+            child_code = code;
+            break;
+        }
+        let sig = status.signal().unwrap_or(0);
+        let candidates: Vec<(usize, u64)> = crashlog::read_busy(&log_path).into_iter().filter(|c| !skip.contains(c)).collect();
+        eprintln!("the worker process died with {} while executing run(s) {:?} (part, index): re-running each alone", signal_name(sig), candidates);
+        let mut culprits = vec![];
+        for (part, idx) in candidates {
+            let st = std::process::Command::new(&exe)
+                .args(["check", property, tier.name()])
+                .env("VERIF_WORKER_CHILD", "1")
+                .env("VERIF_ONLY_PART", part.to_string())
+                .env("VERIF_ONLY_INDEX", idx.to_string())
+                .env("VERIF_SKIP_DET", "1")
+                .env("VERIF_NO_EVIDENCE", "1")
+                .env("VERIF_WORKERS", "1")
+                .stdout(std::process::Stdio::null())
+                .stderr(std::process::Stdio::null())
+                .status();
+            if let Ok(st) = st {
+                if st.code().is_none() {
+                    culprits.push((part, idx, st.signal().unwrap_or(0)));
+                }
+            }
+        }
+        if culprits.is_empty() {
+            eprintln!("HARNESS-ERROR: the worker process died with {} and none of the runs in progress dies when run alone (not attributable; nothing is reported as a violation)", signal_name(sig));
+            let _ = std::fs::remove_file(&log_path);
+            return 2;
+        }
+        for (part, idx, s) in culprits {
+            skip.push((part, idx));
+            crashes.push((part, idx, s));
+        }
+    }
+    let _ = std::fs::remove_file(&log_path);
+    let mut new_crash_violations = 0;
+    for (part, idx, sig) in crashes.iter() {
+        let Some(runner) = pc.parts.get(*part) else { continue };
+        let (params, context) = runner.params_of(cfg, *idx);
+        let key = format!("{}/process_crash/{}{}", runner.name(), context, signal_name(*sig));
+        let v = ctx::Violation { property: property.to_string(), oracle: "process_crashed".into(), key: key.clone(), detail: format!("executing this run kills the process with {} (memory corrupted or freed memory used by the code under test); confirmed by re-running it alone in a fresh process", signal_name(*sig)) };
+        if let Some(kf) = framework::match_known(&known, &v) {
+            println!("KNOWN-FINDING: property={} {} -- {}", kf.property, kf.key, kf.what);
+            continue;
+        }
+        let file = ReplayFile { property: property.to_string(), scenario: runner.name().into(), engine: runner.engine().into(), params, decisions: vec![], violation: v.clone(), verif_seed: cfg.verif_seed, run_index: *idx, repo_commit: framework::repo_commit(), minimised_from: serde_json::json!({"note": "a run that kills the process is reported as generated (no minimisation)"}), trace: vec![] };
+        let path = replay_dir.join(format!("{}-{}-{}.json", property, framework::sanitize(&key), idx));
+        if std::fs::write(&path, serde_json::to_string_pretty(&file).unwrap()).is_err() {
+            eprintln!("HARNESS-ERROR: cannot write {}", path.display());
+            return 2;
+        }
+        println!("VIOLATION property={} replay={}", property, path.display());
+        println!("  oracle={} key={} :: {}", v.oracle, v.key, v.detail);
+        new_crash_violations += 1;
+    }
+    // the evidence file was written by the last worker process: add what only the supervisor knows
+    if !crashes.is_empty() {
+        let ev_path = root.join("evidence").join(format!("{}.json", property));
+        if let Ok(text) = std::fs::read_to_string(&ev_path) {
+            if let Ok(mut ev) = serde_json::from_str::<serde_json::Value>(&text) {
+                ev["coverage"]["runs_that_killed_the_worker_process"] = serde_json::json!(crashes.iter().map(|(p, i, s)| serde_json::json!({"part": p, "run_index": i, "signal": signal_name(*s)})).collect::<Vec<_>>());
+                if let Some(n) = ev["violations"].as_u64() {
+                    ev["violations"] = serde_json::json!(n + new_crash_violations);
+                }
+                let _ = std::fs::write(&ev_path, serde_json::to_string_pretty(&ev).unwrap());
+            }
+        }
+    }
+    if new_crash_violations > 0 {
+        1
+    } else {
+        child_code
+    }
+}
+
 fn main() {
     filter_stderr();
     let args: Vec<String> = std::env::args().collect();
@@ -151,6 +269,11 @@ fn main() {
                 std::process::exit(2);
             };
             let cfg = CheckCfg::from_env(tier, pc.quick_s, pc.thorough_s);
+            if std::env::var_os("VERIF_WORKER_CHILD").is_none() && std::env::var_os("VERIF_CHILD").is_none() && std::env::var_os("VERIF_NO_SUPERVISOR").is_none() {
+                let code = supervise(&property, tier, &pc, &cfg);
+                exit(code);
+            }
+            crashlog::open_from_env();
             println!("{} {}: VERIF_SEED={} budget={}s workers={}", property, tier.name(), cfg.verif_seed, cfg.budget.as_secs(), cfg.workers);
             let outcome = check_scenarios(&property, &cfg, pc.parts, pc.rule, pc.assumptions, pc.checked_build);
             exit(outcome.exit_code);
@@ -177,6 +300,33 @@ fn main() {
                 eprintln!("harness error: unknown scenario {}", file.scenario);
                 std::process::exit(2);
             };
+            if file.violation.oracle == "process_crashed" {
+                if std::env::var_os("VERIF_WORKER_CHILD").is_some() {
+                    // the child: just execute the run (and die, if the crash reproduces)
+                    let _ = part.execute_params(&file.params);
+                    exit(0);
+                }
+                let st = std::process::Command::new(std::env::current_exe().unwrap()).args(["replay", &path, "--quiet"]).env("VERIF_WORKER_CHILD", "1").stdout(std::process::Stdio::null()).stderr(std::process::Stdio::null()).status();
+                match st {
+                    Ok(st) if st.code().is_none() => {
+                        if !quiet {
+                            println!("VIOLATION property={} replay={}", file.property, path);
+                            println!("  reproduced: the run kills the process with {} [{}]", signal_name(st.signal().unwrap_or(0)), file.violation.key);
+                        }
+                        exit(1);
+                    }
+                    Ok(_) => {
+                        if !quiet {
+                            println!("not reproduced: the run completes without killing the process");
+                        }
+                        exit(0);
+                    }
+                    Err(e) => {
+                        eprintln!("harness error: {}", e);
+                        exit(2);
+                    }
+                }
+            }
             match part.replay_file(&file, !quiet) {
                 Ok(true) => {
                     if !quiet {
